@@ -212,6 +212,7 @@ def validate_traces(ctx: Ctx, jobs, outs):
         tf.write_text(json.dumps([tr for _gj, tr in items] + ([corrupt] if corrupt else [])))
         cc = H.consts(Atomic=False, NoMkdir=True, Streaming=streaming, Hashing=hashing, EPS=eps,
                       FillerDirs=FS({(), ("s",), ("s", "t")}), MaxSessions=50, MaxWrites=50, MaxK=6,
+                      MaxAborts=3, WriterNames=tuple(f"u{i}" for i in range(1, 25)),
                       Splits=FS({"train", "test", "holdout"}))
         mod, cfg = tlc.make_model(d, "Dataset_Trace", cc, spec="TSpec", constraints=["Reach"], postcondition="Report",
                                   invariants=["C06_CrashSafe", "C09_NoSharedPath"])
